@@ -1095,7 +1095,7 @@ PROPS["C06"] = dict(
     level_text="Proved in Coq (Properties/C06.v): with a first base that has a vftable, an accepted derived type has no own pointer region, its block (if any) extends the base's "
                "functions position by position (record equality: name, receiver/parameters, return type, convention, also visibility and doc), any differing slot rejects, the accessor goes through the base field and "
                "(RustExec) yields the base sub-object's accessor value; without such a base an own block puts the single pointer-sized private `vftable` field first, at offset 0, before all declared fields. "
-               "Correspondence compares struct fields, accessor bodies and verdicts; the monitor recomputes prefix and pointer placement from the emitted files.",
+               "Correspondence compares struct fields, accessor bodies and verdicts; the monitor recomputes prefix and pointer placement from the emitted files. On the emitted text (EmitInherit.v): C06_emitted_shared_pointer (no generated pointer field in the struct of a type whose first base carries a vftable; the vftable() accessor read back goes through the base field and casts to the right table type), C06_emitted_own_pointer (otherwise the private vftable pointer is the first emitted field, at offset 0 of the Reference layout, the only generated pointer), C06_emitted_vftable_prefix (the emitted derived table struct starts with the fields of the emitted base table -- name, visibility, docs, ABI, types except the receiver pointee -- and both have slot k at k*ptr: a layout prefix, through any depth of first-base inheritance).",
     level_note="Run-time behaviour of the emitted code is checked by the execution oracle on a sample per run (tools/exec_oracle.py: the emitted crate compiled with a generated driver and run on the host; vftable() accessors; trusted: SysV ABI, ABI strings normalised to C). Trusted: Coq kernel; model validated by this run's correspondence; RustExec.v for the accessor's value.",
 )
 PROPS["C07"] = dict(
